@@ -457,6 +457,8 @@ class Resolver:
                 if name in ("partition", "rpartition"):
                     return ("tuple", [prim(base)] * 3)
                 if name == "group" and base == "match":
+                    if not e.args or (len(e.args) == 1 and isinstance(e.args[0], ast.Constant) and e.args[0].value == 0):
+                        return prim("strlike")       # the whole match is never None
                     return ("opt", prim("strlike"))
                 if name in ("match", "search", "fullmatch") and base == "pattern":
                     return ("opt", prim("match"))
